@@ -93,7 +93,7 @@ void World::drain() {
             ChoiceRec cr; cr.n = 2; cr.chosen = idx; cr.dev = idx == 1; cr.what = ev[idx].str() + " (between handlers)"; cr.digest = 0; choices.push_back(cr);
             if (idx == 1) { deviations++; last_deviation_ns = now(); tr("event: inject (between handlers)  (deviation)"); injected = true; do_action(*sc.inject, false); }
         }
-        if (handlers_run - n0 > budget) { vio("C19:livelock:" + sc.name, "more than 200000 handlers ran without the client becoming quiescent"); capped = true; cap_reason = "livelock"; break; }
+        if (handlers_run - n0 > budget) { vio("C19:livelock:" + sc.family(), "more than 200000 handlers ran without the client becoming quiescent"); capped = true; cap_reason = "livelock"; break; }
     }
 }
 
@@ -225,7 +225,7 @@ void World::apply(const Event& e) {
 }
 
 static std::string action_str(const Action& a) {
-    static const char* n[] = {"RUN", "PUB", "SUB", "UNSUB", "RECV", "DISC", "CANCEL", "DESTROY", "MOVE_ASSIGN", "SIGNAL", "BARRIER", "WAIT_HS", "BPUB", "REAUTH", "MARK_STOP", "RERUN_CHECK", "KILLCONN", "NOP"};
+    static const char* n[] = {"RUN", "PUB", "SUB", "UNSUB", "RECV", "DISC", "CANCEL", "DESTROY", "MOVE_ASSIGN", "SIGNAL", "BARRIER", "WAIT_HS", "BPUB", "REAUTH", "MARK_STOP", "RERUN_CHECK", "KILLCONN", "BRAW", "NOP"};
     std::string s = n[a.k]; if (a.k == Action::PUB || a.k == Action::BPUB) s += " q" + std::to_string(a.qos) + " tag" + std::to_string(a.tag); if (a.k == Action::SIGNAL) s += " op" + std::to_string(a.target_op) + " type" + std::to_string(a.sig_type);
     return s;
 }
@@ -269,7 +269,7 @@ void World::initiate(const Action& a) {
 
 void World::do_action(const Action& a, bool from_handler) {
     tr(std::string(from_handler ? "app(in handler): " : "app: ") + action_str(a));
-    if (!client || (!client->alive() && a.k != Action::BPUB && a.k != Action::BARRIER && a.k != Action::NOP && a.k != Action::KILLCONN)) return;
+    if (!client || (!client->alive() && a.k != Action::BPUB && a.k != Action::BARRIER && a.k != Action::NOP && a.k != Action::KILLCONN && a.k != Action::BRAW)) return;
     switch (a.k) {
     case Action::RUN: if (running) { tr("  (skipped: client is already running)"); break; } running = true; net->stop_marker = false; stopped_phase = false; initiate(a); break;
     case Action::DISC: running = false; stop_times.push_back(now()); stop_seqs.push_back(net->op_seq); initiate(a); break;
@@ -283,6 +283,7 @@ void World::do_action(const Action& a, bool from_handler) {
     case Action::BPUB: broker->push(a.tag, uint8_t(a.qos), a.topic, a.payload, a.props); break;
     case Action::REAUTH: client->re_authenticate(); break;
     case Action::MARK_STOP: net->stop_marker = true; break;
+    case Action::BRAW: { int c = broker->live_conn(); if (c >= 0) broker->emit_raw(c, a.payload, true); break; }
     case Action::KILLCONN: { int c = broker->live_conn(); if (c >= 0) broker->close_conn(c); break; }
     default: break;
     }
@@ -368,6 +369,12 @@ uint64_t World::state_digest() const {
     if (client && client->alive()) { auto p = client->peek(); if (p.available) { mix(h, p.quota); mix(h, p.write_queue); mix(h, p.reply_waiters); mix(h, p.fast_replies); mix(h, p.mutex_locked); mix(h, p.mutex_waiting); mix(h, p.session_flags); mix(h, p.lowest_free_id); } }
     auto self = const_cast<World*>(this); auto t = self->next_timer(); mix(h, t ? uint64_t(*t - now()) : ~0ull); mix(h, self->pending_timers());
     return h;
+}
+std::string World::reaction_signature() const {
+    std::string s;
+    for (auto& e : broker->wire) { if (!e.c2b) continue; s += e.malformed ? "M" : ref::ptype_name(e.pkt.type); s += "#" + std::to_string(e.pkt.pid) + (e.pkt.type == ref::PUBLISH && e.pkt.dup() ? "d" : "") + (e.pkt.has_rc ? "r" + std::to_string(e.pkt.rc) : "") + ","; }
+    s += "|"; for (auto& o : ops) s += std::to_string(o.completions) + ":" + std::to_string(o.ec.value()) + ":" + std::to_string(o.rc) + ",";
+    return s;
 }
 uint64_t World::outcome_digest() const {
     uint64_t h = 1469598103934665603ull;
